@@ -6,7 +6,7 @@
    RetryInterval, `q0`/`tok0` are the stored jobs and a possibly left-over token at Start.
    `nofault tr`: every queue call of the loop in tr succeeds without delay (faults: see C15.v). *)
 From Coq Require Import ZArith List Bool.
-Require Import QzLoop.Gen.Params QzLoop.LoopModel QzLoop.LoopProofs.
+Require Import QzLoop.Gen.Params QzLoop.LoopModel QzLoop.LoopProofs QzLoop.Restart QzLoop.RestartProofs.
 Import ListNotations.
 Open Scope Z_scope.
 Open Scope list_scope.
@@ -81,3 +81,58 @@ Theorem C05_ex_due_head : exists s,
   nofault [LoopSize Ok; LoopTick Ok; Adv 5] /\ parked s /\ q s <> [] /\ minp (q s) <= now s.
 Proof. exact ex_due_head. Qed.
 Print Assumptions C05_ex_due_head.
+
+(* ---- restart: the loop of the stopped run may still be alive next to the new run's loop (Restart.v) ----
+   Both loops run the same code and share the queue, the clock and the one interrupt channel; the old
+   loop's context is cancelled (stale_cfg).  o0 is the old loop's state at the moment of the restart:
+   anywhere but already past the select on its way to a fetch. *)
+Theorem C05_stale_loop_never_fetches : forall drain ri q0 tok0 o0 tr s, lpc o0 <> PFetch -> new_nofault tr ->
+  run2 (code_cfg drain ri) (stale_cfg drain ri) (init2 q0 tok0 o0) tr = Some s ->
+  lpc (od s) <> PFetch /\ pops (od s) = pops o0.
+Proof. exact stale_loop_never_fetches. Qed.
+Print Assumptions C05_stale_loop_never_fetches.
+
+Theorem C05_stale_loop_gives_token_back : forall drain ri cn s l s',
+  step2 cn (stale_cfg drain ri) s (Old l) = Some s' -> tok (nw s) = tok (od s) -> tok (nw s) = true -> tok (nw s') = true.
+Proof. exact stale_loop_gives_token_back. Qed.
+Print Assumptions C05_stale_loop_gives_token_back.
+
+Theorem C05_restart_no_lost_wakeup : forall drain ri q0 tok0 o0 tr s, lpc o0 <> PFetch -> new_nofault tr ->
+  run2 (code_cfg drain ri) (stale_cfg drain ri) (init2 q0 tok0 o0) tr = Some s -> parked (nw s) ->
+  armed (nw s) = true /\ (q (nw s) <> [] -> dl (nw s) <= Z.max (armed_at (nw s)) (minp (q (nw s)))).
+Proof. exact restart_no_lost_wakeup. Qed.
+Print Assumptions C05_restart_no_lost_wakeup.
+
+(* sensitivity: without the ctx.Err() checks in the select arms (the code before c87a9a8) the old loop
+   takes the token of the new run: the new loop stays parked on the far timer with a due head, and the
+   old loop can even fetch; the same label sequence is not a run of the current code, where the old loop
+   returns, the token stays and the new loop fetches the due entry *)
+Theorem C05_ex_nocheck_token_stolen : exists s,
+  run2 (nocheck_cfg false false 100) (nocheck_cfg true false 100) (init2 [1000] false busy_old) steal_trace = Some s /\
+  new_nofault steal_trace /\ parked (nw s) /\ q (nw s) = [5; 1000] /\ minp (q (nw s)) <= now (nw s) /\ dl (nw s) = 1000 /\
+  step (nocheck_cfg false false 100) (nw s) TimerFire = None /\ lpc (od s) = PExit.
+Proof. exact ex_nocheck_token_stolen. Qed.
+Print Assumptions C05_ex_nocheck_token_stolen.
+
+Theorem C05_ex_nocheck_stale_loop_fetches : exists s,
+  run2 (nocheck_cfg false false 100) (nocheck_cfg true false 100) (init2 [1000] false busy_old)
+       [New (LoopSize Ok); New (LoopTick Ok); New (ApiMutate [5; 1000]); New ApiToken;
+        Old LoopDispatched; Old (LoopSize Ok); Old (LoopTick Ok); Old SelTok; Old (LoopSize Ok); Old (LoopTick Ok);
+        New (Adv 10); Old TimerFire; Old SelTick; Old (LoopFetch Ok true None Ok)] = Some s /\
+  pops (od s) = [5] /\ q (nw s) = [1000].
+Proof. exact ex_nocheck_stale_loop_fetches. Qed.
+Print Assumptions C05_ex_nocheck_stale_loop_fetches.
+
+Theorem C05_ex_fixed_restart : exists s,
+  run2 (code_cfg false 100) (stale_cfg false 100) (init2 [1000] false busy_old)
+       [New (LoopSize Ok); New (LoopTick Ok); New (ApiMutate [5; 1000]); New ApiToken;
+        Old LoopDispatched; Old (LoopSize Ok); Old (LoopTick Ok); Old SelTok;
+        New SelTok; New (LoopSize Ok); New (LoopTick Ok); New (Adv 10); New TimerFire; New SelTick; New (LoopFetch Ok true (Some 2000) Ok)] = Some s /\
+  lpc (od s) = PExit /\ pops (od s) = [] /\ lpc (nw s) = PDispatch /\ cur (nw s) = 5.
+Proof. exact ex_fixed_restart. Qed.
+Print Assumptions C05_ex_fixed_restart.
+
+Theorem C05_ex_steal_trace_not_a_run_of_fixed :
+  run2 (code_cfg false 100) (stale_cfg false 100) (init2 [1000] false busy_old) steal_trace = None.
+Proof. exact ex_steal_trace_not_a_run_of_fixed. Qed.
+Print Assumptions C05_ex_steal_trace_not_a_run_of_fixed.
